@@ -40,7 +40,7 @@ def recv_field(body, t):
 def run(ctx, rep):
     prog = ctx.prog
     for r, tx in (("C19.a", "authoritative results come from the backend"), ("C19.b", "cache is pruned on every listing of a cacheable type"),
-                  ("C19.c", "cacheability predicates agree"), ("C19.d", "atomic cache writes, temp names never listed")):
+                  ("C19.c", "cacheability predicates agree"), ("C19.d", "atomic cache writes, temp names never listed"), ("C19.e", "cache hits return exactly the requested range")):
         rep.rule(r, tx)
     CB = "<rustic_core::backend::cache::CachedBackend as rustic_core::backend::"
     LS = prog.fn(CB + "ReadBackend>::list_with_size")
@@ -125,6 +125,33 @@ def run(ctx, rep):
         sl = flow.backward_slice(RN, op_place(RN.term(rms[1])["args"][2]))
         rep.check("C19.b", "remove_not_in_list/not-listed", any(c.endswith("Cache::list_with_size") for c in sl["calls"]) and any(re.search(r"::keys$|::into_keys$|::iter$|::drain$", c) for c in sl["calls"]), where=where(RN, rms[1]),
                   what="every cached id that is left after removing the listed ones (not in the repository) is removed")
+    # every listing entry point of CachedBackend prunes: `list` is either not overridden (the trait default calls
+    # list_with_size) or goes through list_with_size / remove_not_in_list itself
+    im = [i for i in prog.impls if (i["header"].get("self_adt") or "").endswith("cache::CachedBackend") and (i["header"].get("trait") or "").endswith("backend::ReadBackend")]
+    if len(im) != 1:
+        raise AnchorError("impl ReadBackend for CachedBackend not found")
+    names = {it["name"]: it["path"] for it in im[0]["items"]}
+    if "list" in names:
+        LB_ = prog.fn(names["list"])
+        via = any("callee" in t and (callee(t).endswith("remove_not_in_list") or re.search(r"CachedBackend as rustic_core::backend::ReadBackend>::list_with_size$", callee(t))) for _, t in LB_.calls())
+        rep.check("C19.b", "list/also-prunes", via, where=LB_.loc(), what="CachedBackend::list goes through the pruning listing" if via else
+                  "CachedBackend overrides list() without pruning the cache: stream_all/find/list no longer drop stale or wrong-size cache entries")
+    else:
+        D = prog.bodies.get("rustic_core::backend::ReadBackend::list")
+        via = D is not None and any("callee" in t and is_method_of(t, RE_LIST) and t["cname"] == "list_with_size" for _, t in D.calls())
+        rep.check("C19.b", "list/also-prunes", via, where=D.loc() if D else "", what="CachedBackend does not override list(): the trait default calls list_with_size, which prunes the cache")
+    # ---- C19.e a cache hit returns exactly the requested range --------------------------------------------
+    CRP = prog.find1(r"^rustic_core::backend::cache::Cache::read_partial$")
+    rex = [bb for bb, t in CRP.calls() if "callee" in t and re.search(r"std::io::Read(>)?::read_exact$", callee(t))]
+    somes = [bi for bi, blk in enumerate(CRP.blocks) for s_ in blk["s"] if s_[0] == "=" and s_[2][0] == "agg" and s_[2][1][0] == "adt" and s_[2][1][2] == "Some"]
+    oke = False
+    if len(rex) == 1 and somes:
+        kind, edges = ok_cut(CRP, rex[0])
+        reach = CRP.reachable_from(0, cut_edges=edges)
+        sl = flow.backward_slice(CRP, op_place(CRP.term(rex[0])["args"][1]))
+        oke = kind == "?" and not any(b in reach for b in somes) and 5 in sl["args"]
+    rep.check("C19.e", "cache-hit-exact-length", oke, where=CRP.loc(), what="a cache hit is reported only after read_exact filled a buffer of exactly `length` bytes (a short cache file is an error -> fall back to the backend)" if oke else
+              "Cache::read_partial can report a hit with fewer than `length` bytes (a truncated cache file is returned as data)")
     # ---- C19.c -------------------------------------------------------------------------------------
     def uses_cache(F, tpe_arg, cache_arg):
         tb = {}
